@@ -29,9 +29,14 @@ echo "[$ID-$V] suite failures with change: $suite; demo exit with change: $with 
 res=""
 export VERIF_REPO=$WT VERIF_ALT_TAG=$TAG VERIF_OUT=/tmp/$TAG-out
 mkdir -p $VERIF_OUT
-if sh /verif/build.sh > /tmp/$TAG-build.log 2>&1; then
+# the framework is built from a snapshot of /verif's committed HEAD, so that edits in progress never break a queued run
+SNAP=/tmp/$TAG-verif
+rm -rf $SNAP; mkdir -p $SNAP
+git -C /verif archive HEAD | tar -x -C $SNAP
+mkdir -p $SNAP/.build; cp -r /verif/.build/tla $SNAP/.build/ 2>/dev/null
+if sh $SNAP/build.sh > /tmp/$TAG-build.log 2>&1; then
  for c in $CHECKS; do
-  /verif/bin/vcheck-$TAG run $c --tier ${TIER:-quick} > /tmp/$TAG-check-$c.log 2>&1; rc=$?
+  $SNAP/bin/vcheck-$TAG run $c --tier ${TIER:-quick} > /tmp/$TAG-check-$c.log 2>&1; rc=$?
   nv=$(grep -c '^VIOLATION' /tmp/$TAG-check-$c.log)
   echo "[$ID-$V] check $c ${TIER:-quick}: exit=$rc violation_lines=$nv : $(grep '^  signature' /tmp/$TAG-check-$c.log | sort | uniq -c | sort -rn | head -3 | tr '\n' ';')"
   res="$res\"$c\": {\"tier\": \"${TIER:-quick}\", \"exit\": $rc, \"violation_lines\": $nv},"
@@ -39,7 +44,7 @@ if sh /verif/build.sh > /tmp/$TAG-build.log 2>&1; then
 else
  echo "[$ID-$V] framework build failed against the changed tree"; tail -5 /tmp/$TAG-build.log
 fi
-cd /; git -C /repo worktree remove --force $WT; rm -rf /verif/bin/vcheck-$TAG /verif/.build/$TAG $VERIF_OUT
+cd /; git -C /repo worktree remove --force $WT; rm -rf $SNAP $VERIF_OUT
 python3 - "$D" "$ID" "$V" "$suite" "$with" "$without" "{${res%,}}" "$CHECKS" <<'PY'
 import json,sys,os
 D,ID,V,suite,w,wo,res,checks=sys.argv[1:9]
